@@ -1,0 +1,91 @@
+//go:build verif
+// +build verif
+
+package vbft
+
+import (
+	vconfig "github.com/polynetwork/poly/consensus/vbft/config"
+)
+
+// Exported wrappers around the unexported round-decision functions (block pool bookkeeping of proposals,
+// endorsements and commits; endorseDone / commitDone / getCommitConsensus; signature collection for a sealed
+// block), compiled only with the build tag `verif` (used by the verification harness in /verif; no behaviour
+// change without the tag).
+
+// VerifPool is a BlockPool attached to a server that has just enough state for isEndorser and GetPeerPubKey.
+type VerifPool struct {
+	Pool *BlockPool
+	srv  *Server
+}
+
+// VerifNewPool builds the pool. peers maps peer index to node id (hex public key); connected lists the peers
+// reported alive by the peer pool; endorsers is currentParticipantConfig.Endorsers.
+func VerifNewPool(self uint32, C uint32, endorsers []uint32, peers map[uint32]string, connected []uint32) (*VerifPool, error) {
+	srv := &Server{
+		Index:                    self,
+		stateMgr:                 &StateMgr{},
+		config:                   &vconfig.ChainConfig{C: C},
+		currentParticipantConfig: &BlockParticipantConfig{Endorsers: endorsers},
+	}
+	srv.peerPool = NewPeerPool(0, srv)
+	for idx, id := range peers {
+		if err := srv.peerPool.addPeer(&vconfig.PeerConfig{Index: idx, ID: id}); err != nil {
+			return nil, err
+		}
+	}
+	for _, idx := range connected {
+		if p := srv.peerPool.peers[idx]; p != nil {
+			p.connected = true
+		}
+	}
+	pool := &BlockPool{server: srv, candidateBlocks: make(map[uint32]*CandidateInfo)}
+	srv.blockPool = pool
+	return &VerifPool{Pool: pool, srv: srv}, nil
+}
+
+func (p *VerifPool) NewBlockProposal(msg *blockProposalMsg) error {
+	return p.Pool.newBlockProposal(msg)
+}
+
+func (p *VerifPool) NewBlockEndorsement(msg *blockEndorseMsg) error {
+	return p.Pool.newBlockEndorsement(msg)
+}
+
+func (p *VerifPool) NewBlockCommitment(msg *blockCommitMsg) error {
+	return p.Pool.newBlockCommitment(msg)
+}
+
+func (p *VerifPool) EndorseDone(blkNum uint32, C uint32) (uint32, bool, bool) {
+	return p.Pool.endorseDone(blkNum, C)
+}
+
+func (p *VerifPool) EndorseFailed(blkNum uint32, C uint32) bool {
+	return p.Pool.endorseFailed(blkNum, C)
+}
+
+func (p *VerifPool) CommitDone(blkNum uint32, C uint32, N uint32) (uint32, bool, bool) {
+	return p.Pool.commitDone(blkNum, C, N)
+}
+
+// Candidate returns the bookkeeping record of a block number (nil if none).
+func (p *VerifPool) Candidate(blkNum uint32) *CandidateInfo {
+	p.Pool.lock.RLock()
+	defer p.Pool.lock.RUnlock()
+	return p.Pool.candidateBlocks[blkNum]
+}
+
+func (p *VerifPool) IsEndorser(blkNum uint32, peerIdx uint32) bool {
+	return p.srv.isEndorser(blkNum, peerIdx)
+}
+
+// AddSignaturesToBlock exposes addSignaturesToBlockLocked (taking the pool lock as setBlockSealed does).
+func (p *VerifPool) AddSignaturesToBlock(block *Block, forEmpty bool) error {
+	p.Pool.lock.Lock()
+	defer p.Pool.lock.Unlock()
+	return p.Pool.addSignaturesToBlockLocked(block, forEmpty)
+}
+
+// VerifGetCommitConsensus exposes getCommitConsensus.
+func VerifGetCommitConsensus(commitMsgs []*blockCommitMsg, C int, N int) (uint32, bool) {
+	return getCommitConsensus(commitMsgs, C, N)
+}
